@@ -19,6 +19,22 @@ enum TagFeature<'a> {
     CharacterTypeNgram(NgramFeature<&'a [u8]>),
 }
 
+#[cfg(feature = "verif-hooks")]
+impl TagFeature<'_> {
+    fn to_verif(&self) -> crate::verif::Feature {
+        match self {
+            Self::CharacterNgram(f) => crate::verif::Feature::CharNgram {
+                ngram: f.ngram.to_string(),
+                rel: f.rel_position,
+            },
+            Self::CharacterTypeNgram(f) => crate::verif::Feature::TypeNgram {
+                ngram: f.ngram.to_vec(),
+                rel: f.rel_position,
+            },
+        }
+    }
+}
+
 impl<'a> TagFeature<'a> {
     pub const fn char_ngram(ngram: &'a str, rel_position: isize) -> Self {
         Self::CharacterNgram(NgramFeature {
@@ -204,13 +220,33 @@ impl<'a> TagTrainer<'a> {
             }
             let quantize_multiplier = weight_max / f64::from((1 << (QUANTIZE_BIT_DEPTH - 1)) - 1);
 
+            #[cfg(feature = "verif-hooks")]
+            crate::verif::tag_begin(&token, i, &tags[i], class_offset);
+
             for (i, &cls) in model.labels().iter().enumerate() {
                 bias[class_offset + usize::try_from(cls).unwrap()] = unsafe {
                     (model.label_bias(i32::try_from(i).unwrap()) / quantize_multiplier)
                         .to_int_unchecked::<i32>()
                 };
+                #[cfg(feature = "verif-hooks")]
+                crate::verif::tag_bias(
+                    usize::try_from(cls).unwrap(),
+                    bias[class_offset + usize::try_from(cls).unwrap()],
+                );
             }
             for (feature, fid) in feature_ids {
+                #[cfg(feature = "verif-hooks")]
+                for (i, &cls) in model.labels().iter().enumerate() {
+                    let raw_weight = model
+                        .feature_coefficient(i32::try_from(fid)?, i32::try_from(i).unwrap());
+                    let weight =
+                        unsafe { (raw_weight / quantize_multiplier).to_int_unchecked::<i32>() };
+                    crate::verif::tag_weight(
+                        feature.to_verif(),
+                        usize::try_from(cls).unwrap(),
+                        weight,
+                    );
+                }
                 match feature {
                     TagFeature::CharacterNgram(NgramFeature {
                         ngram,
